@@ -296,6 +296,11 @@ def check_property(s, stats=None):
                 break
             tried += 1
             r = oracle(s, args)
+            if r == 'ok' and isinstance(args, tuple) and len(args) == 1 and not isinstance(args[0], (tuple, dict, list)):
+                # exactly one unnamed argument: the bare value is accepted as well
+                r = oracle(s, args[0])
+                if r != 'ok':
+                    args = args[0]
             if r != 'ok':
                 rep.update(kind='accepted-but-cpython-fails', observed=f'{s!r} % {args!r} -> {r}'[:300],
                            expected='formats successfully with arguments of the reported shape and types', args=repr(args)[:300],
